@@ -7,6 +7,7 @@ import (
 	"encoding/json"
 	"fmt"
 	"os"
+	"time"
 
 	"github.com/smart-core-os/sc-golang/verifharness/lib"
 )
@@ -23,11 +24,25 @@ func main() {
 	}
 	defer drv.Close()
 	sets := startSetCases(f) // mostly waiting (the 5 s send timeout): runs next to everything below
-	runMergeTable(f, res, drv)
-	runMachine(f, res, drv)
-	runDrop(f, res, drv)
-	runSend(f, res, drv)
-	runLatency(f, res)
+	latMon := newLatencyMonitor(res)
+	latDone := make(chan map[string]int64, 1)
+	go func() { latDone <- runLatencyCases(f, latMon) }() // mostly waiting as well
+	timed := func(name string, run func()) {
+		t0 := time.Now()
+		run()
+		res.Extra["wall_ms/"+name] = time.Since(t0).Milliseconds()
+	}
+	timed("mergeChanges-table", func() { runMergeTable(f, res, drv) })
+	timed("mergeExcess-machine", func() { runMachine(f, res, drv) })
+	timed("DropExcess-machine", func() { runDrop(f, res, drv) })
+	timed("bus-send-deadline", func() { runSend(f, res, drv) })
+	timed("value-pull-pipeline", func() { runValuePipeline(f, res, drv) })
+	timed("collection-subscribers", func() { runCollectionPipelines(f, res, drv) })
+	timed("writers-and-subscribers (rest of it)", func() {
+		for k, v := range <-latDone {
+			res.Extra[k] = v
+		}
+	})
 	sets.finish(res, drv)
 	if err := res.Write(f.Out); err != nil {
 		lib.Fatal(err)
@@ -89,6 +104,22 @@ func replay(f lib.Flags) int {
 		}
 		obs := c.runCode()
 		fmt.Printf("replay set %v -> %s after %s (returned %s, stored %s, err %q)\n", c.Subscribers, obs.Outcome, obs.Elapsed, obs.Returned, obs.Stored, obs.ErrText)
+		c.monitor(m, obs)
+	case "vrun":
+		var c vrunCase
+		if err := json.Unmarshal(raw, &c); err != nil {
+			lib.Fatal(err)
+		}
+		obs := c.runCode("", nil)
+		fmt.Printf("replay vrun %s -> %s (stored %s)\n", c.key(), obs.answer(), obs.Stored)
+		c.monitor(m, obs)
+	case "crun":
+		var c crunCase
+		if err := json.Unmarshal(raw, &c); err != nil {
+			lib.Fatal(err)
+		}
+		obs := c.runCode("", nil)
+		fmt.Printf("replay crun %s -> %s (list %s)\n", c.key(), obs.answer(), obs.Listed)
 		c.monitor(m, obs)
 	case "latency":
 		var c latencyCase
